@@ -121,6 +121,14 @@ func init() {
 			Spec{Kind: "i64", Ret: "errkind", Ignore: append([]string{"copy"}, ign...), IgnoreLHS: []string{"sth"},
 				ErrCalls: map[string]string{"getSignedLogRoot": "rootFails", "signV1TreeHead": "signFails"},
 				Repl:     map[string]string{"err != nil": "signFails", "len(sth.TreeHeadSignature.Signature)": "sigLen"}})},
+		{"ParseBodyAsJSONChain", handlerKernel(h, "ParseBodyAsJSONChain", "parseBodyAsJSONChain", "(readFails jsonBad : Bool) (chainLen : Int)", "ErrKind", "", "ErrKind.ok",
+			Spec{Kind: "i64", Ret: "errkind", Ignore: ign, IgnoreLHS: []string{"req"},
+				ErrCalls: map[string]string{"io.ReadAll": "readFails"},
+				InitCond: map[string]string{"err := json.Unmarshal(body, &req) ; err != nil": "jsonBad"},
+				Repl:     map[string]string{"len(req.Chain)": "chainLen"}})},
+		{"verifyAddChain", handlerKernel(h, "verifyAddChain", "verifyAddChain", "(validateFails precertTestFails isPrecert_ expectingPrecert_ : Bool)", "ErrKind", "", "ErrKind.ok",
+			Spec{Kind: "i64", Ret: "errkind", Ignore: ign,
+				ErrCalls: map[string]string{"ValidateChain": "validateFails", "IsPrecertificate": "precertTestFails"}})},
 		{"checkAuditPath", handlerKernel(h, "checkAuditPath", "checkAuditPath", "(someWrongSize : Bool)", "Bool", "", "true",
 			Spec{Kind: "i64", Ignore: ign, RangeCond: map[string]string{"path": "someWrongSize", "cond:path": "len(node) != sha256.Size"}})},
 		{"marshalGetEntriesResponse", handlerKernel(h, "marshalGetEntriesResponse", "marshalGetEntriesResponse", "", "ErrKind", "", "ErrKind.ok",
